@@ -77,6 +77,21 @@ int snoopy_datasourceregistry_callByName(char const * const name, char * const b
 {
     g_ds_calls++;
     g_ds_bufsize_seen = bufsize;
+#ifdef CONCURRENT
+    /* C09: another thread formats ITS record while this thread is inside a data source (the point at which a thread is
+     * most likely to be preempted: data sources make system calls).  Sequentialised: the other thread's complete call runs
+     * here, on its own buffers.  Anything the formatter keeps in static storage is overwritten by it. */
+    {
+        static int nested;
+        if (!nested) {
+            char other[8];
+            nested = 1;
+            other[0] = '\0';
+            snoopy_message_generateFromFormat(other, sizeof other, DMAX + 1, "%{f:zz}q");
+            nested = 0;
+        }
+    }
+#endif
     V_ASSERT(bufsize >= 1 && bufsize <= (size_t)DMAX + 1, "C05: a data source is given room for at most datasource_message_max_length bytes (+NUL)");
     /* 'n' succeeds and 'g' fails WITHOUT writing anything (like the real noop, or cwd when getcwd() fails):
      * their contribution is the empty string, never what an earlier tag left in the scratch buffer */
